@@ -25,7 +25,7 @@
    PARTIAL: lone CR / lone LF line ends on the completeness side; on the converse side the internal
    structure of the white space (which CR / LF sequences count as folds and which as the line end):
    render/parse oracle and the correspondence run. *)
-From Sipsp Require Import Harness Classify HdrLine FLineSpec HdrSpec BlockSpec TrimSpec.
+From Sipsp Require Import Harness Classify HdrLine FLineSpec HdrSpec BlockSpec TrimSpec EolSpec.
 
 Theorem C07_header_line : forall p name wsb lead t1 tl d x,
   nametok name -> name <> [] -> spaces wsb -> spaces lead -> tok t1 -> t1 <> [] -> good_tail tl -> is_sp d = false ->
@@ -92,6 +92,61 @@ Proof.
   repeat (constructor; [cbn; repeat split; try discriminate; try exact G; repeat constructor; discriminate|]). constructor.
 Qed.
 Print Assumptions C07_header_block.
+(* ---- every line terminator: CR LF, a lone CR, a lone LF, in any mix ------------------------------------------------------------------- *)
+Theorem C07_terminators_mean : forall e d b x ls,
+  eol_bytes e = match e with ECRLF => [CR; LF] | ECR => [CR] | ELF => [LF] end /\
+  (eol_ok e d <-> is_sp d = false /\ (e = ECR -> is_lf d = false)) /\
+  (blank_ok b x <-> (b = ECR -> exists d y, x = d :: y /\ is_lf d = false)) /\
+  (chain_ok ls b <-> match ls with [] => True | le :: ls' => (match ls' with [] => snd le = ECR -> b <> ELF | _ => True end) /\ chain_ok ls' b end).
+Proof. intros. split; [destruct e; reflexivity|]. split; [reflexivity|]. split; [reflexivity|]. destruct ls; reflexivity. Qed.
+Theorem C07_header_line_any_terminator : forall p name wsb lead t1 tl e d x,
+  nametok name -> name <> [] -> spaces wsb -> spaces lead -> tok t1 -> t1 <> [] -> good_tail tl -> eol_ok e d ->
+  let i := nnat (length p) in
+  let vstart := i + nnat (length name) + nnat (length wsb) + 1 + nnat (length lead) in
+  let value := t1 ++ flat tl in
+  parse_hdrline (p ++ name ++ wsb ++ (58 : byte) :: lead ++ value ++ eol_bytes e ++ d :: x) i (mkhline hdr0 None)
+  = Done (vstart + nnat (length value) + nnat (length (eol_bytes e))) EOk
+      (mkhline (mkhdr (get_hdr_type name) (mkpf i (nnat (length name))) (mkpf vstart (nnat (length value))) HFIN) None).
+Proof. exact header_line_spec_e. Qed.
+Theorem C07_header_line_empty_value_any_terminator : forall p name wsb lead e d x,
+  nametok name -> name <> [] -> spaces wsb -> spaces lead -> eol_ok e d ->
+  let i := nnat (length p) in
+  parse_hdrline (p ++ name ++ wsb ++ (58 : byte) :: lead ++ eol_bytes e ++ d :: x) i (mkhline hdr0 None)
+  = Done (i + nnat (length name) + nnat (length wsb) + 1 + nnat (length lead) + nnat (length (eol_bytes e))) EOk
+      (mkhline (mkhdr (get_hdr_type name) (mkpf i (nnat (length name))) pf0 HFIN) None).
+Proof. exact header_line_empty_value_spec_e. Qed.
+Theorem C07_header_block_any_terminators : forall ls b p x n, Forall (fun le => line_ok (fst le)) ls -> ls <> [] -> chain_ok ls b -> blank_ok b x ->
+  let i := nnat (length p) in
+  let hs := ehdrs_at i ls in
+  exists L, parse_headers (p ++ eblock_bytes ls ++ eol_bytes b ++ x) i (mkhdrs_st (hdrlst_init (repeat hdr0 n)) None)
+            = Done (i + nnat (length (eblock_bytes ls)) + nnat (length (eol_bytes b))) EOk (mkhdrs_st L None) /\
+    hl_n L = nnat (length ls) /\
+    (forall j, (j < length ls)%nat -> (j < n)%nat -> nth j (hl_hdrs L) hdr0 = nth j hs hdr0) /\
+    (forall t, t < 16 -> N.testbit (hl_pflags L) t = existsb (fun h => h_type h =? t) hs) /\
+    (forall t, HdrNone < t -> t < HdrOther -> hl_gethdr L t = Some (match first_of t hs with Some h => h | None => hdr0 end)).
+Proof. exact header_block_spec_e. Qed.
+Theorem C07_header_block_any_terminators_lines : forall l e ls i,
+  ehdrs_at i ((l, e) :: ls) = hdr_of l i :: ehdrs_at (i + nnat (length (line_body l ++ eol_bytes e))) ls /\
+  eblock_bytes ((l, e) :: ls) = (line_body l ++ eol_bytes e) ++ eblock_bytes ls /\
+  line_bytes l = line_body l ++ [CR; LF].
+Proof. intros. split; [reflexivity|]. split; [reflexivity|]. destruct l; cbn [line_bytes line_body]; repeat (rewrite <- ?app_assoc; cbn [app]); reflexivity. Qed.
+(* satisfiable: "Via: x" CR "X:" LF "v : y z" CR LF, then a lone-LF blank line *)
+Example C07_block_terminators_example :
+  let ls := [(LVal [86;105;97] [] [32] [120] [], ECR); (LEmpty [88] [] [], ELF); (LVal [118] [32] [32] [121] [([32], [122])], ECRLF)] in
+  Forall (fun le => line_ok (fst le)) ls /\ chain_ok ls ELF /\ blank_ok ELF [] /\
+  match parse_headers (eblock_bytes ls ++ eol_bytes ELF ++ []) 0 (mkhdrs_st (hdrlst_init (repeat hdr0 2)) None) with
+  | Done o e st => o = 20 /\ e = EOk /\ hl_n (hs_l st) = 3 /\ hl_pflags (hs_l st) = N.lor (2 ^ HdrVia) (2 ^ HdrOther) /\
+                   hl_hdrs (hs_l st) = [mkhdr HdrVia (mkpf 0 3) (mkpf 5 1) HFIN; mkhdr HdrOther (mkpf 7 1) pf0 HFIN]
+  | _ => False
+  end.
+Proof.
+  cbv zeta. split.
+  - assert (G : good_tail [([32], [122])]).
+    { constructor; [|constructor]. split; [apply lws_run_spaces; [discriminate|repeat constructor]|split; [repeat constructor|discriminate]]. }
+    repeat (constructor; [cbn; repeat split; try discriminate; try exact G; repeat constructor; discriminate|]). constructor.
+  - split; [cbn; repeat split; discriminate|]. split; [intros H; discriminate H|]. vm_compute. repeat split.
+Qed.
+Print Assumptions C07_header_block_any_terminators.
 
 (* ---- the converse direction, every input -------------------------------------------------------------------------------------------- *)
 Theorem C07_accepted_name_and_colon : forall buf offs o st', offs <= nnat (length buf) ->
